@@ -66,6 +66,38 @@ def regions(t, u, v):
     }
 
 
+LAWMODS = {"circulation_is_integral_along_curve": ("circulation_law", "circulation_along_curve", 1),
+           "flux_is_integral_across_curve": ("flux_law", "flux_across_curve", 1),
+           "circulation_is_integral_of_curl_over_surface": ("circulation_law", "circulation_along_surface_boundary", 2),
+           "flux_is_integral_across_surface": ("flux_law", "flux_across_surface", 2)}
+LAWMOD_LIMITS = ("symbolic", "0..2pi", "2pi..0", "-2pi..0", "0..-pi", "-pi..pi")
+
+
+def lawmod_sides(modname, variant, deg, C, lohi, comps):
+    """(value through the law module's function, value of the analysis routine it documents) on one curve / surface and one choice of
+    parameter limits -- symbolic ones and ones that start or end at 0, run backwards or are negative"""
+    import importlib
+    from symplyphysics.core.fields.vector_field import VectorField
+    from symplyphysics.core.vectors.vectors import Vector
+    from symplyphysics.core.fields import analysis as AN
+    mod = importlib.import_module("symplyphysics.laws.fields." + modname)
+    lawname, anname, npar = LAWMODS[modname]
+    field = VectorField.from_vector(Vector(comps, C))
+    lo, hi = {"symbolic": lohi, "0..2pi": (0, 2 * sp.pi), "2pi..0": (2 * sp.pi, 0), "-2pi..0": (-2 * sp.pi, 0), "0..-pi": (0, -sp.pi), "-pi..pi": (-sp.pi, sp.pi)}[variant]
+    R = sp.Symbol("R", positive=True)
+    if npar == 1:
+        par = mod.parameter
+        traj = [R * sp.cos(par), R * sp.sin(par)] + ([0] if "circulation" in modname else [])
+        comps_ = comps if "circulation" in modname else comps[:2]
+        field = VectorField.from_vector(Vector(comps_, C))
+        return getattr(mod, lawname)(field, traj, lo, hi), getattr(AN, anname)(field, traj, (par, lo, hi))
+    p1, p2 = mod.parameter1, mod.parameter2
+    a = sp.Symbol("a", positive=True)
+    surf = [p1, p2, p1 + 2 * p2]
+    return (getattr(mod, lawname)(field, surf, (lo, hi), (0, a)) + getattr(mod, lawname)(field, surf, (-a, 0), (lo, hi)),
+            getattr(AN, anname)(field, surf, (p1, lo, hi), (p2, 0, a)) + getattr(AN, anname)(field, surf, (p1, -a, 0), (p2, lo, hi)))
+
+
 def free_of_coordinates(e, cs, params):
     e = sp.sympify(e)
     bad = [s for s in e.atoms(BaseScalar)] + [p for p in params if e.has(p)]
@@ -132,6 +164,9 @@ def work(item):
                     for traj, (p, lo, hi) in reg["segments"]:
                         tot += f_curve(field, [sp.sympify(c).subs(p, p**2) for c in traj], (p, 0, -sp.sqrt(hi)))
                     return curve_value(), tot, [t, u, v]
+            if theorem == "lawmod":
+                lhs_, rhs_ = lawmod_sides(region, variant, deg, C, sp.symbols("lo hi", real=True), generic_field(C, deg, 3)[0])
+                return lhs_, rhs_, [t, u, v]
             if theorem == "gauss":
                 a, b, c = sp.symbols("a b c", positive=True)
                 comps, coeffs = generic_field(C, deg, 3)
@@ -149,6 +184,11 @@ def work(item):
                 # divergence theorem in the library's curvilinear systems, against the textbook flux of a radial (+ axial) field
                 R, h = sp.symbols("R h", positive=True)
                 kind = "SPHERICAL" if region == "ball" else "CYLINDRICAL"
+                # not the first system of its kind in this process: an earlier one has already been through the same routine
+                # (whatever the library remembers from it must not leak into this one)
+                S_first = CoordinateSystem(getattr(CoordinateSystem.System, kind))
+                f1, _, _ = S_first.coord_system.base_scalars()
+                AN.flux_across_volume_boundary(VectorField.from_vector(Vector([f1, 0, 0], S_first)), (0, 1), (0, 2 * sp.pi), (0, sp.pi if kind == "SPHERICAL" else 1))
                 S_ = CoordinateSystem(getattr(CoordinateSystem.System, kind))
                 q1, q2, q3 = S_.coord_system.base_scalars()
                 pc = [sp.Symbol(f"p{i}", real=True) for i in range(deg + 1)]
@@ -241,8 +281,13 @@ try:
                 tot += fc(field, [sp.sympify(c).subs(sizes).subs(p, p**2) for c in traj], (p, 0, -sp.sqrt(hi)))
             r = num(tot)
         else: l = curve(); r = -curve(reverse=True)
+    elif theorem == "lawmod":
+        l_, r_ = c13.lawmod_sides(region, variant, deg, C, (sp.Rational(-3, 2), sp.Rational(5, 4)), comps)
+        l, r = num(l_), num(r_)
     elif theorem == "gauss_curv":
         kind = "SPHERICAL" if region == "ball" else "CYLINDRICAL"
+        S_first = CoordinateSystem(getattr(CoordinateSystem.System, kind)); f1 = S_first.coord_system.base_scalars()[0]
+        AN.flux_across_volume_boundary(VectorField.from_vector(Vector([f1, 0, 0], S_first)), (0, 1), (0, 2 * sp.pi), (0, sp.pi if kind == "SPHERICAL" else 1))
         S_ = CoordinateSystem(getattr(CoordinateSystem.System, kind)); q1, q2, q3 = S_.coord_system.base_scalars()
         R, h = 2, sp.Rational(3, 2)
         pc = [random.randint(-4, 4) for _ in range(deg + 1)]; qc = [random.randint(-4, 4) for _ in range(deg + 1)]
@@ -291,6 +336,9 @@ def run(ctx):
         items.append(("green", "rectangle_swapped", deg, "theorem", timeout))
     items.append(("green", "rectangle", 2, "speed_sq", timeout))
     items.append(("stokes", "rectangle", 2, "speed_sq", timeout))
+    for modname in LAWMODS:
+        for lim in LAWMOD_LIMITS:
+            items.append(("lawmod", modname, 1, lim, timeout))
     for theorem in ("stokes", "green"):
         for region in (("circle", "ellipse", "rectangle") if thorough else ("circle", "rectangle")):
             items.append((theorem, region, 2, "speed", timeout))
@@ -303,7 +351,7 @@ def run(ctx):
         "(four segments) and box with symbolic sizes. Each result must be free of coordinate variables and parameters; the two sides of "
         "each theorem, a reparametrised curve (t -> k t, k > 0 symbolic) and the reversed curve are compared by z3 as polynomial identities "
         "in the coefficients, sizes and pi (free variable).")
-    ctx.functions_encoded = ["analysis.circulation_along_curve", "analysis.circulation_along_surface_boundary", "analysis.flux_across_curve", "analysis.flux_across_surface",
+    ctx.functions_encoded = ["laws.fields.*.circulation_law / flux_law (against the analysis routine each documents, limits symbolic / starting or ending at 0 / reversed)", "analysis.circulation_along_curve", "analysis.circulation_along_surface_boundary", "analysis.flux_across_curve", "analysis.flux_across_surface",
                              "analysis.flux_across_surface_boundary", "analysis.flux_across_volume_boundary", "geometry.elements.*", "geometry.normals.*", "operators.curl_operator/divergence_operator"]
     ctx.bounds = [f"polynomial fields of total degree <= {max(degs)} (all coefficients symbolic)", "regions: circle R, ellipse a,b, rectangle a x b, box a x b x c (symbolic sizes > 0)",
                   "reparametrisation speed k > 0 symbolic", f"z3 timeout {timeout} ms; SymPy integration limit 600 s"]
